@@ -589,12 +589,24 @@ def run_impl_guarded(runner, c):
         G.reset_partition()
 
 
-def correspondence(rep, family, n, maxops, tag=""):
-    """returns (cases, impl_outputs) so that monitors can reuse the implementation runs"""
+def correspondence(rep, family, n, maxops, tag="", maxdigits=None):
+    """returns (cases, impl_outputs) so that monitors can reuse the implementation runs.
+    maxdigits: cases whose exact results contain integers longer than this are not sent to Coq
+    (evaluating Qred on hundreds of digits with Coq's binary integers takes seconds per case)."""
     gen, runner, expr = FAMILIES[family]
     r = C.rng(f"corr_{family}_{tag}")
-    cases = [gen(r, maxops) for _ in range(n)]
-    impl = [run_impl_guarded(runner, c) for c in cases]
+    cases, impl, skipped_big = [], [], 0
+    tries = 0
+    while len(cases) < n and tries < 4 * n:
+        tries += 1
+        c = gen(r, maxops)
+        o = run_impl_guarded(runner, c)
+        if maxdigits and o[0] is not None and any(abs(x) >= 10 ** maxdigits for x in o[0]):
+            skipped_big += 1
+            continue
+        cases.append(c)
+        impl.append(o)
+    n = len(cases)
     exprs = [expr(c) for c in cases]
     res, log = C.eval_cases(f"{family}{tag}", HEADER, exprs, shard=150)
     mism, evald, raised = [], 0, 0
@@ -615,7 +627,7 @@ def correspondence(rep, family, n, maxops, tag=""):
             # first differing position
             pos = next((i for i, (x, y) in enumerate(zip(got, out)) if x != y), min(len(got), len(out)))
             mism.append((c, f"state differs at encoded position {pos} (model {len(got)} ints, impl {len(out)} ints)", got, out))
-    rep.corr[f"{family}{tag}"] = {"cases": n, "evaluated_in_coq": evald, "mismatches": len(mism),
+    rep.corr[f"{family}{tag}"] = {"cases": n, "skipped_results_too_long_for_coq": skipped_big, "evaluated_in_coq": evald, "mismatches": len(mism),
                                   "impl_raised": raised, "classes": clsdist, "ops": opdist, "coq_log": log[-400:]}
     if evald < n - raised:
         rep.violation("broken-correspondence", f"model evaluation failed for {family}: {log[-300:]}", {"log": log[-2000:]}, False)
